@@ -15,7 +15,7 @@ import re
 ID = 'C07'
 TECHNIQUE = 'online reference-model monitor: real evaluator vs reference evaluator R2 (outcome, value, names, operation count) on type-directed programs'
 FN_REPR = re.compile(r"<function .*? at 0x[0-9a-f]+>|<[\w.]*Lambda object at 0x[0-9a-f]+>|<built-in (?:function|method) \w+(?: of [^<>]*)?>|<method '\w+' of '\w+' objects>|<class '[\w.]+'>")
-RULE = 'programs of 1-8 statements from the type-directed generator G2 (lib/gen2.py): every operator on the type combinations the typing admits, all statement forms, slices with negative/fractional bounds and steps, lambdas (dynamic scoping, extra/missing arguments, parameters shadowing host names and builtins) driven by map/filter/reduce/sorted and host callbacks hm/try_, every deterministic builtin, None as a first-class value (bound literally, by the host, by misses of index_of/get/match), equal-but-differently-spelled number literals, aliasing probes, host-supplied initial names (ints alongside decimals), ast_names helpers with multi-statement bodies; ~15 % of programs violate exactly one fact (missing key, index out of range, pop of empty, undefined name/function, too few lambda arguments, compound assignment to an undefined name / missing key, one ill-typed operation); budgets: ample, the exact need T, T+1, T-1, the default 100; separators ; \\n \\r\\n, end-of-line comments; evaluated on a plain parser, as the SECOND evaluation of the same text on a caching parser, after an arbitrary earlier call, or with a UserDict names mapping. Non-trivial = the program ran under both evaluators and outcome, value, names and the three operation counts were compared; distinct = distinct (source, budget).'
+RULE = 'programs of 1-8 statements from the type-directed generator G2 (lib/gen2.py): every operator on the type combinations the typing admits, all statement forms, slices with negative/fractional bounds and steps, lambdas (dynamic scoping, extra/missing arguments, parameters shadowing host names and builtins) driven by map/filter/reduce/sorted and host callbacks hm/try_, every deterministic builtin, None as a first-class value (bound literally, by the host, by misses of index_of/get/match), equal-but-differently-spelled number literals, aliasing probes, host-supplied initial names (ints alongside decimals), ast_names helpers with multi-statement bodies; ~15 % of programs violate exactly one fact (missing key, index out of range, pop of empty, undefined name/function, too few lambda arguments, compound assignment to an undefined name / missing key, one ill-typed operation); budgets: ample, the exact need T, T+1, T-1, the default 100; separators ; \\n \\r\\n, end-of-line comments; evaluated on a plain parser, as the SECOND evaluation of the same text on a caching parser, after an arbitrary earlier call, or with a UserDict / ChainMap / defaultdict / __missing__ names mapping. Non-trivial = the program ran under both evaluators and outcome, value, names and the three operation counts were compared; distinct = distinct (source, budget).'
 RULE += ' Alias probes also bind and store the host tuples handed out by enumerate() and items() and then mutate through one side.'
 ASSUMPTIONS = ['R2 (lib/refeval.py) is the reading of "the reference semantics": Python semantics over decimal.Decimal under the default context, string-on-the-left + coercion, '
                'decimal->int index casts, key->str dict casts, dynamically scoped positional lambdas, deep copy on assignment, statements yield None, one operation per node evaluation',
@@ -26,6 +26,11 @@ FINDINGS = {
     'setitem-statement-value': 'an index assignment (c[k] = e, c[k] op= e) as the last statement makes eval return the assigned operand instead of None',
 }
 CASE_DEADLINE = 20
+
+
+class MissingNames(dict):
+    def __missing__(self, key):
+        return 0
 
 
 def setup(ctx):
@@ -57,6 +62,9 @@ def cases(ctx):
 
 def same(ctx, a, b):
     """a: implementation value, b: reference value"""
+    if hasattr(a, 'verif_tag') or hasattr(b, 'verif_tag'):
+        # opaque host objects (possibly deep copies of each other): same class, same tag; their own __eq__ is not consulted
+        return type(a) is type(b) and getattr(a, 'verif_tag', None) == getattr(b, 'verif_tag', None)
     if a is None or b is None:
         return a is None and b is None
     if isinstance(a, bool) or isinstance(b, bool):
@@ -154,7 +162,7 @@ def run_case(case, ctx):
     ref, m = refeval.run(tree, rn, budget if budget is not None else 100, ref_ast)
     # implementation: on the plain parser, or as the SECOND evaluation of the same text on a caching parser (the tree has been evaluated before:
     # anything remembered on its nodes must not show), sometimes after an arbitrary earlier call, sometimes with a non-dict names mapping
-    mode = r.randrange(10)
+    mode = r.randrange(13)
     P = ctx.P0
     if mode < 3:
         P = ctx.PC
@@ -173,6 +181,15 @@ def run_case(case, ctx):
         import collections
         inn = collections.UserDict(inn)
         ctx.count('programs_with_a_UserDict_names_mapping')
+    elif mode in (10, 11):
+        # a names mapping whose subscript never raises KeyError (defaultdict / __missing__): a name is defined iff the mapping CONTAINS it
+        import collections
+        inn = collections.defaultdict(list, inn) if mode == 10 else MissingNames(inn)
+        ctx.count('programs_with_a_names_mapping_defining___missing__')
+    elif mode == 12:
+        import collections
+        inn = collections.ChainMap(inn)
+        ctx.count('programs_with_a_ChainMap_names_mapping')
     M1 = ctx.M1
     M1.reset()
     M1.lambdas.clear()
